@@ -19,11 +19,50 @@ def fill(f):
     return float("nan") if f == 99 else float(f)
 
 
+def milli(x):
+    x = float(x)
+    if math.isnan(x):
+        return 0, 1
+    return int(round(x * 1000)), 0
+
+
+def aob(c):
+    """average_over_bed(bed, names=..., stats="all") of the real extension -> rows as the CLI check uses them"""
+    b = pybigtools.open(c["path"])
+    nm = c["name"]
+    names = {"col4": True, "col5": 5, "interval": False, "default": 4, "none": None}[nm]
+    rows = []
+    for i, r in enumerate(b.average_over_bed(c["bed"], names=names, stats="all"), 1):
+        if names is None:
+            name, st = i, r
+        else:
+            label, st = r
+            reg = c["regions"][i - 1]
+            want = {"col4": "r%d" % i, "default": "r%d" % i, "col5": "x%d" % i, "interval": "%s:%d-%d" % (c["chroms"][reg[0] - 1], reg[1], reg[2])}[nm]
+            name = i if label == want else 0
+        row = {"name": name, "size": int(st.size), "bases": int(st.bases)}
+        row["sum_m"], _ = milli(st.sum)
+        row["mean0_m"], row["mean0_nan"] = milli(st.mean0)
+        row["mean_m"], row["mean_nan"] = milli(st.mean)
+        row["min_m"], row["min_nan"] = milli(st.min)
+        row["max_m"], row["max_nan"] = milli(st.max)
+        rows.append(row)
+    return {"rc": 0, "parsed": 1, "rows": rows, "same_as_t1": 1, "err": ""}
+
+
 def main():
     out = open(sys.argv[3], "w")
     handles = {}
     for line in open(sys.argv[2]):
         c = json.loads(line)
+        if c.get("mode") == "aob":
+            try:
+                c["obs"] = aob(c)
+            except BaseException as ex:
+                c["obs"] = {"rc": 1, "parsed": 0, "rows": [], "same_as_t1": 1, "err": "%s: %s" % (type(ex).__name__, str(ex)[:200])}
+            out.write(json.dumps(c) + "\n")
+            out.flush()
+            continue
         try:
             b = handles.get(c["path"])
             if b is None:
